@@ -21,6 +21,7 @@ import (
 	"github.com/ethereum/go-ethereum/common"
 	ethtypes "github.com/ethereum/go-ethereum/core/types"
 	ethcrypto "github.com/ethereum/go-ethereum/crypto"
+	"github.com/ethereum/go-ethereum/rlp"
 	"github.com/palomachain/paloma/v2/x/consensus/keeper/consensus"
 	consensustypes "github.com/palomachain/paloma/v2/x/consensus/types"
 	evmtypes "github.com/palomachain/paloma/v2/x/evm/types"
@@ -41,6 +42,16 @@ import (
 // consensus end blocker calls), which reaches evm's attestRouter.  One dedicated scenario
 // (c07EarlyEvidenceBlock, also used by the C09 check) goes through real MsgAddEvidence
 // transactions and the real end blocker.
+//
+// The remote transaction itself is drawn from every class go-ethereum can decode: legacy
+// (EIP-155), access-list, dynamic-fee and blob (EIP-4844) transactions, the latter in its canonical
+// serialization or in the network form with a blob sidecar (several sidecars) - the same remote
+// transaction (same hash) then has several valid serializations, validators may report different
+// ones, and a used transaction is re-submitted in the same or in another one.  Compass uploads
+// come with the regular constructor input, with other constructor arguments, or without any; the
+// reported deployment call data is the expected string, a proper prefix of it, an extension of it,
+// the bytecode followed by other arguments, or an edit.  c07Directed walks through these boundary
+// classes deterministically; the random cases mix them with everything else.
 
 const c07Chain = "c07"
 
@@ -514,9 +525,12 @@ func (e *c07Env) corrupt(ca *c07Args) string {
 }
 
 type c07Tx struct {
-	tx      *ethtypes.Transaction
-	exact   bool // data is the encoding of the message with a non-empty signature prefix
-	foreign bool // sent to an address that is not the compass contract of the chain
+	tx      *ethtypes.Transaction // the remote transaction (decoded from its canonical serialization)
+	class   string                // legacy | al | dyn | blob
+	enc     int                   // the serialization its reporters use unless they disagree: 0 canonical, k = network form with sidecar k
+	body    *c07BlobBody          // class blob: the signed fields, to serialize the network form
+	exact   bool                  // data is the encoding of the message with a non-empty signature prefix
+	foreign bool                  // sent to an address that is not the compass contract of the chain
 	what    string
 	status  int // receipt the relayer's transaction really got: 1 ok, 0 failed, -1 no receipt
 	log     bool
@@ -531,6 +545,7 @@ type c07Ev struct {
 	status  int    // receipt status this validator reports (1, 0, -1 = no receipt)
 	log     bool   // receipt carries the ContractDeployed log
 	variant int    // anything else in the receipt (cumulative gas used)
+	enc     int    // serialization of the transaction in this validator's proof (0 canonical, k = blob sidecar k)
 }
 
 // norm: without a receipt there is nothing the log flag or the variant could be part of.
@@ -547,7 +562,7 @@ func (v c07Ev) key() string {
 	if v.kind != "tx" {
 		return "err"
 	}
-	return fmt.Sprintf("tx/%s/%d/%v/%d", v.tx.tx.Hash().Hex(), v.status, v.log, v.variant)
+	return fmt.Sprintf("tx/%s/%d/%v/%d/%d", v.tx.tx.Hash().Hex(), v.status, v.log, v.variant, v.enc)
 }
 
 func (v c07Ev) token() string {
@@ -559,26 +574,142 @@ func (v c07Ev) token() string {
 	if v.status >= 0 {
 		st = fmt.Sprint(v.status)
 	}
-	return fmt.Sprintf("%d;tx;%s;%s;%s;%s;%d", v.val+1, new(big.Int).SetBytes(v.tx.tx.Hash().Bytes()), st, c05X(v.tx.tx.Data()), c07B(v.log), v.variant)
+	return fmt.Sprintf("%d;tx;%s;%s;%s;%s;%d;%d", v.val+1, new(big.Int).SetBytes(v.tx.tx.Hash().Bytes()), st, c05X(v.tx.tx.Data()), c07B(v.log), v.variant, v.enc)
 }
 
-func (e *c07Env) mkTx(to *common.Address, data []byte) *ethtypes.Transaction {
-	e.nonce++
-	tx, err := ethtypes.SignNewTx(e.key, ethtypes.NewLondonSigner(e.chainID), &ethtypes.DynamicFeeTx{
-		ChainID: e.chainID, Nonce: e.nonce, To: to, Data: data, Gas: 1_000_000,
-		GasFeeCap: big.NewInt(1_000_000_000), GasTipCap: big.NewInt(1),
-	})
-	if err != nil {
-		e.t.Fatal(err)
+// c07BlobBody is the field list of an EIP-4844 transaction (go-ethereum's BlobTx) in RLP order.
+type c07BlobBody struct {
+	ChainID    *big.Int
+	Nonce      uint64
+	GasTipCap  *big.Int
+	GasFeeCap  *big.Int
+	Gas        uint64
+	To         common.Address
+	Value      *big.Int
+	Data       []byte
+	AccessList ethtypes.AccessList
+	BlobFeeCap *big.Int
+	BlobHashes []common.Hash
+	V, R, S    *big.Int
+}
+
+// c07BlobNet is the network form of a blob transaction: the body followed by the sidecar.
+type c07BlobNet struct {
+	Body        *c07BlobBody
+	Blobs       [][]byte
+	Commitments [][]byte
+	Proofs      [][]byte
+}
+
+const c07Sidecars = 3
+
+// c07Sidecar: the blob sidecars a reporter may attach (decoding does not validate them).
+func c07Sidecar(k int) (blobs, commitments, proofs [][]byte) {
+	fill := func(n int, b byte) []byte { return bytes.Repeat([]byte{b}, n) }
+	switch k {
+	case 1: // network form without any blob
+		return [][]byte{}, [][]byte{}, [][]byte{}
+	case 2: // commitment and proof only
+		return [][]byte{}, [][]byte{fill(48, 0xc2)}, [][]byte{fill(48, 0x92)}
+	default: // one (zero) blob
+		return [][]byte{make([]byte, 131072)}, [][]byte{fill(48, 0xc3)}, [][]byte{fill(48, 0x93)}
+	}
+}
+
+func c07DecodeTx(t *testing.T, raw []byte) *ethtypes.Transaction {
+	tx := new(ethtypes.Transaction)
+	if err := tx.UnmarshalBinary(raw); err != nil {
+		t.Fatalf("decode tx: %v", err)
 	}
 	return tx
 }
 
-func (e *c07Env) receipt(status int, withLog bool, variant int) []byte {
+var c07TxClasses = []string{"dyn", "legacy", "al", "blob"}
+
+// mkTx signs a remote transaction of the given class with the relayer's key.
+func (e *c07Env) mkTx(class string, to *common.Address, data []byte) *c07Tx {
+	e.nonce++
+	signer := ethtypes.LatestSignerForChainID(e.chainID)
+	var inner ethtypes.TxData
+	switch class {
+	case "legacy":
+		inner = &ethtypes.LegacyTx{Nonce: e.nonce, To: to, Data: data, Gas: 1_000_000, GasPrice: big.NewInt(1_000_000_000)}
+	case "al":
+		inner = &ethtypes.AccessListTx{ChainID: e.chainID, Nonce: e.nonce, To: to, Data: data, Gas: 1_000_000, GasPrice: big.NewInt(1_000_000_000),
+			AccessList: ethtypes.AccessList{{Address: common.HexToAddress("0xC0"), StorageKeys: []common.Hash{{1}}}}}
+	case "dyn":
+		inner = &ethtypes.DynamicFeeTx{
+			ChainID: e.chainID, Nonce: e.nonce, To: to, Data: data, Gas: 1_000_000,
+			GasFeeCap: big.NewInt(1_000_000_000), GasTipCap: big.NewInt(1),
+		}
+	case "blob":
+		if to == nil {
+			e.t.Fatal("mkTx: a blob transaction cannot create a contract")
+		}
+		body := &c07BlobBody{
+			ChainID: e.chainID, Nonce: e.nonce, GasTipCap: big.NewInt(1), GasFeeCap: big.NewInt(1_000_000_000), Gas: 1_000_000,
+			To: *to, Value: big.NewInt(0), Data: data, AccessList: ethtypes.AccessList{}, BlobFeeCap: big.NewInt(1),
+			BlobHashes: []common.Hash{{0x01, 0xb1}}, V: big.NewInt(0), R: big.NewInt(0), S: big.NewInt(0),
+		}
+		enc := func() []byte {
+			bz, err := rlp.EncodeToBytes(body)
+			if err != nil {
+				e.t.Fatal(err)
+			}
+			return append([]byte{ethtypes.BlobTxType}, bz...)
+		}
+		sig, err := ethcrypto.Sign(signer.Hash(c07DecodeTx(e.t, enc())).Bytes(), e.key)
+		if err != nil {
+			e.t.Fatal(err)
+		}
+		body.R, body.S, body.V = new(big.Int).SetBytes(sig[:32]), new(big.Int).SetBytes(sig[32:64]), new(big.Int).SetBytes(sig[64:])
+		tx := c07DecodeTx(e.t, enc())
+		if from, err := ethtypes.Sender(signer, tx); err != nil || from != ethcrypto.PubkeyToAddress(e.key.PublicKey) {
+			e.t.Fatalf("mkTx: blob transaction not signed by the relayer: %v", err)
+		}
+		return &c07Tx{tx: tx, class: class, body: body}
+	default:
+		e.t.Fatalf("mkTx: class %q", class)
+	}
+	tx, err := ethtypes.SignNewTx(e.key, signer, inner)
+	if err != nil {
+		e.t.Fatal(err)
+	}
+	return &c07Tx{tx: tx, class: class}
+}
+
+// raw serializes the transaction the way encoding enc does.  Every serialization decodes to the
+// same transaction (same hash): that is checked here, not assumed.
+func (e *c07Env) raw(tx *c07Tx, enc int) []byte {
+	var raw []byte
+	if enc == 0 {
+		bz, err := tx.tx.MarshalBinary()
+		if err != nil {
+			e.t.Fatal(err)
+		}
+		raw = bz
+	} else {
+		if tx.body == nil {
+			e.t.Fatalf("raw: %s transaction has no encoding %d", tx.class, enc)
+		}
+		b, c, p := c07Sidecar(enc)
+		bz, err := rlp.EncodeToBytes(&c07BlobNet{Body: tx.body, Blobs: b, Commitments: c, Proofs: p})
+		if err != nil {
+			e.t.Fatal(err)
+		}
+		raw = append([]byte{ethtypes.BlobTxType}, bz...)
+	}
+	if got := c07DecodeTx(e.t, raw); got.Hash() != tx.tx.Hash() || !bytes.Equal(got.Data(), tx.tx.Data()) {
+		e.t.Fatalf("raw: encoding %d of a %s transaction decodes to another transaction", enc, tx.class)
+	}
+	return raw
+}
+
+func (e *c07Env) receipt(txType uint8, status int, withLog bool, variant int) []byte {
 	if status < 0 {
 		return nil
 	}
-	rc := &ethtypes.Receipt{Type: ethtypes.DynamicFeeTxType, Status: uint64(status), CumulativeGasUsed: 21000 + uint64(variant)}
+	rc := &ethtypes.Receipt{Type: txType, Status: uint64(status), CumulativeGasUsed: 21000 + uint64(variant)}
 	// an unrelated log first, then (optionally) the ContractDeployed event
 	rc.Logs = append(rc.Logs, &ethtypes.Log{Address: common.HexToAddress("0xC0"), Topics: []common.Hash{ethcrypto.Keccak256Hash([]byte("Other()"))}})
 	if withLog {
@@ -604,11 +735,8 @@ func (e *c07Env) proof(v c07Ev) *codectypes.Any {
 		}
 		return any
 	}
-	raw, err := v.tx.tx.MarshalBinary()
-	if err != nil {
-		e.t.Fatal(err)
-	}
-	any, err := codectypes.NewAnyWithValue(&evmtypes.TxExecutedProof{SerializedTX: raw, SerializedReceipt: e.receipt(v.status, v.log, v.variant)})
+	raw := e.raw(v.tx, v.enc)
+	any, err := codectypes.NewAnyWithValue(&evmtypes.TxExecutedProof{SerializedTX: raw, SerializedReceipt: e.receipt(v.tx.tx.Type(), v.status, v.log, v.variant)})
 	if err != nil {
 		e.t.Fatal(err)
 	}
@@ -619,90 +747,193 @@ func (e *c07Env) proof(v c07Ev) *codectypes.Any {
 func (tx *c07Tx) evs(vals []int) []c07Ev {
 	var out []c07Ev
 	for _, i := range vals {
-		out = append(out, c07Ev{val: i, kind: "tx", tx: tx, status: tx.status, log: tx.log})
+		out = append(out, c07Ev{val: i, kind: "tx", tx: tx, status: tx.status, log: tx.log, enc: tx.enc})
 	}
 	return out
 }
 
-// buildTx builds the transaction a (possibly faulty) relayer reports for the stored message.
-func (e *c07Env) buildTx(s *c07Stored) *c07Tx {
+// c07Force pins the choices of one directed case (everything not named here is the plain valid
+// flow: estimate elected, all validators sign, current valset, exact call data, success receipt,
+// unanimous evidence); nil = everything random.
+type c07Force struct {
+	existing bool   // uv: the valset is an existing snapshot
+	upCtor   string // up: regular | empty | other
+	upData   string // up: one of c07UpDataModes
+	class    string // transaction class ("" = dyn)
+	enc      int    // serialization the reporters use
+	resubmit bool   // re-submit the transaction for a second, identical message ...
+	resubEnc int    // ... in this serialization
+}
+
+func (f *c07Force) txClass() string {
+	if f.class == "" {
+		return "dyn"
+	}
+	return f.class
+}
+
+// ctorInput packs constructor arguments chosen by the transaction's sender: a valset owned by
+// the relayer's own key, a fresh compass id and fee manager.
+func (e *c07Env) ctorInput() []byte {
+	var id [32]byte
+	e.r.Rng.Read(id[:])
+	vs := evmtypes.CompassValset{
+		Validators: []common.Address{ethcrypto.PubkeyToAddress(e.key.PublicKey)},
+		Powers:     []*big.Int{big.NewInt(1 << 32)}, ValsetId: big.NewInt(1),
+	}
+	in, err := e.abi.Pack("", id, big.NewInt(0), big.NewInt(0), vs, common.HexToAddress(c05ValidAddr(e.r)))
+	if err != nil {
+		e.t.Fatalf("pack constructor: %v", err)
+	}
+	return in
+}
+
+var c07UpDataModes = []string{"exact", "bytecode-only", "extend", "other-args", "truncate", "flip", "data-edit"}
+
+// upCallData: the deployment call data a relayer reports for a compass upload.
+func (e *c07Env) upCallData(up *evmtypes.UploadSmartContract, mode string) []byte {
 	r := e.r.Rng
-	out := &c07Tx{exact: true, what: "valid", status: 1, log: true}
+	want := append(append([]byte(nil), up.Bytecode...), up.ConstructorInput...)
+	switch mode {
+	case "bytecode-only": // a proper prefix when the message has constructor input
+		return append([]byte(nil), up.Bytecode...)
+	case "extend": // the whole expected string, then more
+		if r.Intn(2) == 0 {
+			return append(want, e.ctorInput()...)
+		}
+		return append(want, c05Bytes(e.r, 1+r.Intn(64))...)
+	case "other-args": // the bytecode, then constructor arguments of the sender's choosing
+		return append(append([]byte(nil), up.Bytecode...), e.ctorInput()...)
+	case "truncate":
+		if len(want) < 2 {
+			return []byte{}
+		}
+		return want[:len(want)-1-r.Intn(min(len(want)-1, 64))]
+	case "flip":
+		want[r.Intn(len(want))] ^= byte(1 + r.Intn(255))
+		return want
+	case "data-edit":
+		return c05FreshBytes(e.r, want)
+	}
+	return want
+}
+
+// buildTx builds the transaction a (possibly faulty) relayer reports for the stored message.
+func (e *c07Env) buildTx(s *c07Stored, f *c07Force) *c07Tx {
+	r := e.r.Rng
+	exact, what, foreign := true, "valid", false
 	compass := common.HexToAddress("0x00000000000000000000000000000000000000C0")
 	var data []byte
+	var to *common.Address
+	class := "dyn"
 	if up := s.msg.GetUploadSmartContract(); up != nil {
-		data = append(append([]byte(nil), up.Bytecode...), up.ConstructorInput...)
-		switch r.Intn(6) {
-		case 0:
-			data = c05FreshBytes(e.r, data)
-			out.exact, out.what = false, "up:data-edit"
-		case 1:
-			data = append([]byte(nil), up.Bytecode...)
-			out.exact, out.what = len(up.ConstructorInput) == 0, "up:no-ctor"
+		mode := "exact"
+		switch {
+		case f != nil:
+			mode = f.upData
+		case r.Intn(2) == 0:
+			mode = c07UpDataModes[1+r.Intn(len(c07UpDataModes)-1)]
 		}
-		out.tx = e.mkTx(nil, data)
+		data = e.upCallData(up, mode)
+		// ground truth: the call data IS bytecode followed by the constructor input, nothing else
+		exact = bytes.Equal(data, append(append([]byte(nil), up.Bytecode...), up.ConstructorInput...))
+		if mode != "exact" {
+			what = "up:" + mode
+		}
+		if len(up.ConstructorInput) == 0 {
+			e.r.Stat(fmt.Sprintf("up-ctor-empty:%s:exact=%v", mode, exact))
+		} else {
+			e.r.Stat(fmt.Sprintf("up-ctor-set:%s:exact=%v", mode, exact))
+		}
+		// a contract creation: every class but blob (EIP-4844 transactions always have a destination)
+		class = []string{"dyn", "dyn", "legacy", "al"}[r.Intn(4)]
+		if f != nil {
+			class = f.txClass()
+		}
 	} else {
 		n := len(s.q.GetSignData())
 		pl := n
 		switch {
 		case n == 0:
-			out.exact, out.what = false, "no-signatures"
+			exact, what = false, "no-signatures"
+		case f != nil:
 		case r.Intn(5) == 0 && n > 1:
 			pl = 1 + r.Intn(n-1) // late signatures: an earlier prefix
-			out.what = "earlier-prefix"
+			what = "earlier-prefix"
 			e.r.Stat("prefix:earlier")
 		case r.Intn(12) == 0:
 			pl = 0 // the empty prefix is never tried by the Go loop
-			out.exact, out.what = false, "empty-prefix"
+			exact, what = false, "empty-prefix"
 		}
 		ca := e.relayerArgs(s, pl)
-		switch k := r.Intn(10); {
-		case k == 0 || k == 1: // single field
-			out.exact, out.what = false, "edit:"+e.corrupt(&ca)
-		case k == 2: // several fields
-			a := e.corrupt(&ca)
-			b := e.corrupt(&ca)
-			out.exact, out.what = false, "edit2:"+a+"+"+b
+		if f == nil {
+			switch k := r.Intn(10); {
+			case k == 0 || k == 1: // single field
+				exact, what = false, "edit:"+e.corrupt(&ca)
+			case k == 2: // several fields
+				a := e.corrupt(&ca)
+				b := e.corrupt(&ca)
+				exact, what = false, "edit2:"+a+"+"+b
+			}
 		}
 		var err error
 		data, err = e.abi.Pack(ca.method, ca.args...)
 		if err != nil {
 			e.t.Fatalf("pack %s: %v", ca.method, err)
 		}
-		switch r.Intn(16) {
-		case 0:
-			data[4+r.Intn(len(data)-4)] ^= byte(1 + r.Intn(255))
-			out.exact, out.what = false, "raw:flip"
-		case 1:
-			data = data[:len(data)-1-r.Intn(31)]
-			out.exact, out.what = false, "raw:truncate"
-		case 2:
-			data = append(data, byte(r.Intn(256)))
-			out.exact, out.what = false, "raw:append"
-		case 3:
-			data[r.Intn(4)] ^= 0x10
-			out.exact, out.what = false, "raw:selector"
+		if f == nil {
+			switch r.Intn(16) {
+			case 0:
+				data[4+r.Intn(len(data)-4)] ^= byte(1 + r.Intn(255))
+				exact, what = false, "raw:flip"
+			case 1:
+				data = data[:len(data)-1-r.Intn(31)]
+				exact, what = false, "raw:truncate"
+			case 2:
+				data = append(data, byte(r.Intn(256)))
+				exact, what = false, "raw:append"
+			case 3:
+				data[r.Intn(4)] ^= 0x10
+				exact, what = false, "raw:selector"
+			}
 		}
 		// ground truth for the monitors: the data is the relayer encoding of this very message
 		// for SOME non-empty signature prefix (with an empty valset every prefix encodes alike)
-		exact := false
+		isExact := false
 		for i := 1; i <= n; i++ {
 			ra := e.relayerArgs(s, i)
 			if want, err := e.abi.Pack(ra.method, ra.args...); err == nil && bytes.Equal(want, data) {
-				exact = true
+				isExact = true
 			}
 		}
-		if exact != out.exact {
-			e.r.Stat(fmt.Sprintf("exact-relabelled:%s:%v", out.what, exact))
-			out.exact = exact
+		if isExact != exact {
+			e.r.Stat(fmt.Sprintf("exact-relabelled:%s:%v", what, isExact))
+			exact = isExact
 		}
-		to := compass
-		if r.Intn(6) == 0 {
+		dst := compass
+		if f == nil && r.Intn(6) == 0 {
 			// same call data, but sent to some other contract: VerifyAgainstTX only reads tx.Data()
-			to = common.HexToAddress(c05ValidAddr(e.r))
-			out.foreign = true
+			dst = common.HexToAddress(c05ValidAddr(e.r))
+			foreign = true
 		}
-		out.tx = e.mkTx(&to, data)
+		to = &dst
+		class = []string{"dyn", "dyn", "dyn", "legacy", "legacy", "al", "blob", "blob", "blob", "blob"}[r.Intn(10)]
+		if f != nil {
+			class = f.txClass()
+		}
+	}
+	out := e.mkTx(class, to, data)
+	out.exact, out.what, out.foreign, out.status, out.log = exact, what, foreign, 1, true
+	if class == "blob" {
+		// which serialization of the transaction the reporters put into their proofs
+		out.enc = []int{0, 0, 0, 1, 1, 2, 2, 3}[r.Intn(8)]
+		if f != nil {
+			out.enc = f.enc
+		}
+	}
+	e.r.Stat(fmt.Sprintf("txclass:%s:enc=%d", class, out.enc))
+	if f != nil {
+		return out
 	}
 	switch r.Intn(8) {
 	case 0:
@@ -766,20 +997,8 @@ func (e *c07Env) quorumGroup(ctx sdk.Context, evs []c07Ev) *c07Ev {
 	return nil
 }
 
-// runAttest calls the function the consensus end blocker calls and classifies the outcome.
-// It runs on a cache context that is dropped when the call panics: in the end blocker nobody
-// recovers, FinalizeBlock fails and nothing of that block is persisted (the deferred
-// writeCache/Remove/setTxAsAlreadyProcessed calls that run while the panic unwinds die with it).
-func (e *c07Env) runAttest(parent sdk.Context) (class string) {
-	ctx, write := parent.CacheContext()
-	defer func() {
-		if rec := recover(); rec != nil {
-			class = "panic"
-			return
-		}
-		write()
-	}()
-	err := e.fa.App().ConsensusKeeper.CheckAndProcessAttestedMessages(ctx)
+// classify maps the error of the attestation callback to the model's result classes.
+func c07Classify(err error) string {
 	switch {
 	case err == nil:
 		return "nil"
@@ -792,13 +1011,80 @@ func (e *c07Env) runAttest(parent sdk.Context) (class string) {
 	}
 }
 
+// verdict runs, on a THROW-AWAY cache context, exactly what the loop of
+// CheckAndProcessAttestedMessages runs for message id: the attestation callback the evm keeper
+// registered for this queue (evm's attestRouter), on the queue object built from the evm keeper's
+// own options.  Since /repo 1718b7eb the loop only logs a callback's error and carries on, so the
+// result of one message is not visible in its return value any more; the keeper state is taken
+// from the real call below, never from this one.
+func (e *c07Env) verdict(parent sdk.Context, id uint64) (class string) {
+	ctx, _ := parent.CacheContext()
+	defer func() {
+		if rec := recover(); rec != nil {
+			class = "panic"
+		}
+	}()
+	a := e.fa.App()
+	opts, err := a.EvmKeeper.SupportedQueues(ctx)
+	if err != nil {
+		e.t.Fatalf("SupportedQueues: %v", err)
+	}
+	for _, o := range opts {
+		if o.QueueTypeName != e.queue {
+			continue
+		}
+		qo := o.QueueOptions
+		if qo.Sg == nil {
+			qo.Sg = a.ConsensusKeeper
+		}
+		if qo.Cdc == nil {
+			qo.Cdc = a.AppCodec()
+		}
+		q, err := consensus.NewQueue(qo)
+		if err != nil {
+			e.t.Fatalf("NewQueue: %v", err)
+		}
+		msg, err := q.GetMsgByID(ctx, id)
+		if err != nil {
+			e.t.Fatalf("message %d: %v", id, err)
+		}
+		return c07Classify(o.ProcessMessageForAttestation(ctx, q, msg))
+	}
+	e.t.Fatalf("queue %s is not supported by the evm keeper", e.queue)
+	return ""
+}
+
+// runAttest calls the function the consensus end blocker calls (all keeper state the check looks
+// at comes from this call) and classifies the outcome of message id (see verdict).
+// It runs on a cache context that is dropped when the call panics: in the end blocker nobody
+// recovers, FinalizeBlock fails and nothing of that block is persisted (the deferred
+// writeCache/Remove/setTxAsAlreadyProcessed calls that run while the panic unwinds die with it).
+func (e *c07Env) runAttest(parent sdk.Context, id uint64) (class string) {
+	class = e.verdict(parent, id)
+	ctx, write := parent.CacheContext()
+	defer func() {
+		if rec := recover(); rec != nil {
+			class = "panic"
+			return
+		}
+		write()
+	}()
+	if err := e.fa.App().ConsensusKeeper.CheckAndProcessAttestedMessages(ctx); err != nil {
+		// (before /repo 1718b7eb this was the first failing message's error)
+		if c := c07Classify(err); c != class {
+			e.r.Stat("end-blocker-call-returned:" + c + ":callback:" + class)
+		}
+	}
+	return class
+}
+
 // attest emits the attestev op for message id with the evidence evs (in store order), runs the
 // real attestation and evaluates the monitors.
 func (e *c07Env) attest(ctx sdk.Context, id uint64, evs []c07Ev, kind string) (class string, fx []string) {
 	before := e.observe(ctx)
 	e.chainLine(before)
 	grp := e.quorumGroup(ctx, evs)
-	class = e.runAttest(ctx)
+	class = e.runAttest(ctx, id)
 	after := e.observe(ctx)
 
 	// success effects, from the keeper state alone
@@ -872,12 +1158,11 @@ func (e *c07Env) attest(ctx sdk.Context, id uint64, evs []c07Ev, kind string) (c
 			removed = false
 		}
 	}
-	accepted := len(fx) > 0
-	if kind == "slc" {
-		// a logic call has no keeper-visible success effect; acceptance = committed without error
-		// with a transaction marked as processed
-		accepted = class == "nil" && removed && anyProcessed
-	}
+	// acceptance: success effects in the keeper state, or - a logic call and an update-valset for
+	// a snapshot that does not exist have none - the router ran to its end for a quorum of
+	// transaction proofs: no error, the message committed as handled
+	accepted := len(fx) > 0 || (class == "nil" && removed && grp != nil && grp.kind == "tx")
+	_ = anyProcessed
 	if accepted {
 		switch {
 		case grp == nil || grp.kind != "tx" || grp.status != 1:
@@ -970,8 +1255,9 @@ func (e *c07Env) newUSC(ctx sdk.Context) (uint64, error) {
 }
 
 // newUP saves a new compass and lets the keeper schedule its deployment; returns the id of the
-// UploadSmartContract message (0 when the keeper did not schedule one).
-func (e *c07Env) newUP(ctx sdk.Context) (uint64, error) {
+// UploadSmartContract message (0 when the keeper did not schedule one).  ctor: regular (what
+// deploySmartContractToChain packed) | other | empty.
+func (e *c07Env) newUP(ctx sdk.Context, ctor string) (uint64, error) {
 	a := e.fa.App()
 	before := e.observe(ctx)
 	sc, err := a.EvmKeeper.SaveNewSmartContract(ctx, e.abiJSON, append([]byte{0x60, 0x02}, c05Bytes(e.r, 1+e.r.Rng.Intn(30))...))
@@ -989,7 +1275,21 @@ func (e *c07Env) newUP(ctx sdk.Context) (uint64, error) {
 	for _, x := range after.queue {
 		if !seen[x] {
 			if s := e.load(ctx, x); s != nil && s.msg.GetUploadSmartContract() != nil {
-				return x, nil
+				if ctor == "regular" {
+					return x, nil
+				}
+				// the same upload re-issued through the keeper's own entry point (the retry path uses
+				// it too) with other constructor arguments, or - the shape VerifyAgainstTX provides
+				// for "just in case" - without constructor input
+				up := s.msg.GetUploadSmartContract()
+				nu := &evmtypes.UploadSmartContract{Id: up.Id, Bytecode: up.Bytecode, Abi: up.Abi}
+				if ctor == "other" {
+					nu.ConstructorInput = e.ctorInput()
+				}
+				if err := a.ConsensusKeeper.DeleteJob(ctx, e.queue, x); err != nil {
+					return 0, err
+				}
+				return a.EvmKeeper.AddUploadSmartContractToConsensus(ctx, c07Chain, nu)
 			}
 		}
 	}
@@ -1009,6 +1309,7 @@ func TestC07(t *testing.T) {
 	defer r.Close()
 
 	c07EndBlockerScenario(t, r)
+	c07Directed(t, r)
 
 	var e *c07Env
 	casesPerApp := 40
@@ -1016,57 +1317,117 @@ func TestC07(t *testing.T) {
 		if ci%casesPerApp == 0 {
 			e = newC07Env(t, r, r.Seed*1000+int64(ci))
 		}
-		e.lines = []string{"reset (env of case block)"}
 		kind := []string{"uv", "slc", "usc", "up", "slc", "uv", "usc"}[r.Rng.Intn(7)]
-		caseKey := ""
-		_, err := e.fa.WithDeliverCtx(func(ctx sdk.Context) error {
-			e.registerAll(ctx)
-			var id uint64
-			var err error
-			switch kind {
-			case "uv":
-				id, err = e.newUV(ctx, r.Rng.Intn(4) != 0)
-			case "slc":
-				id, err = e.newSLC(ctx)
-			case "usc":
-				id, err = e.newUSC(ctx)
-			case "up":
-				id, err = e.newUP(ctx)
-				if err == nil && id == 0 {
-					// a deployment is pending (an earlier upload was rejected): clear it and retry
-					for cid := range e.observe(ctx).deps {
-						e.fa.App().EvmKeeper.DeleteSmartContractDeploymentByContractID(ctx, cid, c07Chain)
-					}
-					id, err = e.newUP(ctx)
-				}
-				if err == nil && id == 0 {
-					kind = "slc"
-					id, err = e.newSLC(ctx)
-				}
-			}
-			if err != nil {
-				return fmt.Errorf("create %s: %w", kind, err)
-			}
-			r.Stat("kind:" + kind)
-			return e.driveMessage(ctx, id, kind, &caseKey)
-		})
-		if err != nil {
-			t.Fatalf("case %d (%s): %v\n%s", ci, kind, err, strings.Join(e.lines, "\n"))
-		}
-		r.Case(caseKey, true)
+		e.runCase(fmt.Sprintf("case %d", ci), kind, nil)
 		if ci%5 == 4 {
 			e.fa.NextBlock() // the real end blocker runs over whatever is left
 		}
 	}
 }
 
+// runCase creates one message of the given kind through the keeper and drives it (f == nil:
+// random choices; otherwise the directed case f).
+func (e *c07Env) runCase(name, kind string, f *c07Force) {
+	r, t := e.r, e.t
+	e.lines = []string{"reset (env of case block)"}
+	caseKey := ""
+	_, err := e.fa.WithDeliverCtx(func(ctx sdk.Context) error {
+		e.registerAll(ctx)
+		var id uint64
+		var err error
+		switch kind {
+		case "uv":
+			existing := r.Rng.Intn(4) != 0
+			if f != nil {
+				existing = f.existing
+			}
+			id, err = e.newUV(ctx, existing)
+		case "slc":
+			id, err = e.newSLC(ctx)
+		case "usc":
+			id, err = e.newUSC(ctx)
+		case "up":
+			ctor := []string{"regular", "regular", "regular", "empty", "empty", "other"}[r.Rng.Intn(6)]
+			if f != nil {
+				ctor = f.upCtor
+			}
+			r.Stat("up-ctor:" + ctor)
+			id, err = e.newUP(ctx, ctor)
+			if err == nil && id == 0 {
+				// a deployment is pending (an earlier upload was rejected): clear it and retry
+				for cid := range e.observe(ctx).deps {
+					e.fa.App().EvmKeeper.DeleteSmartContractDeploymentByContractID(ctx, cid, c07Chain)
+				}
+				id, err = e.newUP(ctx, ctor)
+			}
+			if err == nil && id == 0 {
+				if f != nil {
+					return fmt.Errorf("directed case: the keeper did not schedule an upload")
+				}
+				kind = "slc"
+				id, err = e.newSLC(ctx)
+			}
+		}
+		if err != nil {
+			return fmt.Errorf("create %s: %w", kind, err)
+		}
+		r.Stat("kind:" + kind)
+		return e.driveMessage(ctx, id, kind, &caseKey, f)
+	})
+	if err != nil {
+		t.Fatalf("%s (%s): %v\n%s", name, kind, err, strings.Join(e.lines, "\n"))
+	}
+	r.Case(caseKey, true)
+}
+
+// c07Directed walks deterministically through the boundary classes the random generator reaches
+// only now and then:
+//   - compass uploads: every shape of the message's constructor input (regular, other arguments,
+//     none) x every class of reported deployment call data (the expected string, the bare bytecode,
+//     an extension, the bytecode followed by other arguments, a truncation, a flipped byte, an edit);
+//   - single use of a remote transaction across its serializations: an update-valset (and a logic
+//     call) is attested with a transaction of every class, reported in every serialization, and the
+//     SAME transaction is then re-submitted, in the same and in every other serialization, for a
+//     second message with identical content.
+//
+// Every case runs through the same driveMessage/attest path as the random ones, so the same
+// monitors and the same model comparison decide it.
+func c07Directed(t *testing.T, r *Rec) {
+	e := newC07Env(t, r, r.Seed*1000+998)
+	n := 0
+	run := func(kind string, f *c07Force) {
+		n++
+		e.runCase(fmt.Sprintf("directed case %d %+v", n, *f), kind, f)
+		if n%5 == 0 {
+			e.fa.NextBlock()
+		}
+	}
+	for _, ctor := range []string{"empty", "regular", "other"} {
+		for i, data := range c07UpDataModes {
+			run("up", &c07Force{upCtor: ctor, upData: data, class: []string{"dyn", "legacy", "al"}[i%3]})
+		}
+	}
+	for _, class := range []string{"legacy", "al", "dyn"} {
+		run("uv", &c07Force{existing: true, class: class, resubmit: true})
+	}
+	for enc := 0; enc <= c07Sidecars; enc++ {
+		for enc2 := 0; enc2 <= c07Sidecars; enc2++ {
+			run("uv", &c07Force{existing: true, class: "blob", enc: enc, resubmit: true, resubEnc: enc2})
+		}
+	}
+	for _, encs := range [][2]int{{0, 0}, {1, 1}, {1, 0}, {0, 2}} {
+		run("slc", &c07Force{class: "blob", enc: encs[0], resubmit: true, resubEnc: encs[1]})
+	}
+	r.Stat(fmt.Sprintf("directed-cases:%d", n))
+}
+
 // driveMessage takes message id through estimate, signatures, public access data, evidence and
 // attestation, then through the follow-up scenarios (re-submission, handover) and cleans up.
-func (e *c07Env) driveMessage(ctx sdk.Context, id uint64, kind string, caseKey *string) error {
+func (e *c07Env) driveMessage(ctx sdk.Context, id uint64, kind string, caseKey *string, f *c07Force) error {
 	r := e.r
 	// 1. gas estimate (and, for fee payers, the fees) — sometimes evidence arrives before that
 	estimated := false
-	if kind != "up" && r.Rng.Intn(5) != 0 {
+	if kind != "up" && (f != nil || r.Rng.Intn(5) != 0) {
 		if err := e.electEstimate(ctx, id, 21_000+uint64(r.Rng.Intn(500_000))); err != nil {
 			return fmt.Errorf("estimate: %w", err)
 		}
@@ -1077,12 +1438,19 @@ func (e *c07Env) driveMessage(ctx sdk.Context, id uint64, kind string, caseKey *
 	}
 	// 2. signatures from k validators
 	k := []int{0, 1, 2, 3, 3, 4, 4, 4}[r.Rng.Intn(8)]
+	if f != nil {
+		k = 4
+	}
 	if err := e.sign(ctx, id, c07Perm(r, k)); err != nil {
 		return fmt.Errorf("sign: %w", err)
 	}
 	// 3. public access data selects the valset
 	cur := e.observe(ctx).cur
-	switch r.Rng.Intn(10) {
+	padMode := r.Rng.Intn(10)
+	if f != nil {
+		padMode = 9
+	}
+	switch padMode {
 	case 0: // none
 		r.Stat("pad:none")
 	case 1:
@@ -1098,7 +1466,7 @@ func (e *c07Env) driveMessage(ctx sdk.Context, id uint64, kind string, caseKey *
 	s := e.register(ctx, id)
 
 	// 4. the reported transaction
-	tx := e.buildTx(s)
+	tx := e.buildTx(s, f)
 	r.Stat("tx:" + strings.SplitN(tx.what, ":", 2)[0])
 	r.Stat(fmt.Sprintf("receipt:%d", tx.status))
 
@@ -1106,7 +1474,11 @@ func (e *c07Env) driveMessage(ctx sdk.Context, id uint64, kind string, caseKey *
 	var evs []c07Ev
 	mode := ""
 	perm := r.Rng.Perm(4)
-	junk := func() *c07Tx { return &c07Tx{tx: e.mkTx(nil, []byte{1}), what: "junk", status: 1} }
+	junk := func() *c07Tx {
+		j := e.mkTx(c07TxClasses[r.Rng.Intn(3)], nil, []byte{1})
+		j.what, j.status = "junk", 1
+		return j
+	}
 	withReceipt := func(vals []int, status int) []c07Ev {
 		out := tx.evs(vals)
 		for i := range out {
@@ -1114,7 +1486,11 @@ func (e *c07Env) driveMessage(ctx sdk.Context, id uint64, kind string, caseKey *
 		}
 		return out
 	}
-	switch m := r.Rng.Intn(24); {
+	m := r.Rng.Intn(28)
+	if f != nil {
+		m = 23
+	}
+	switch {
 	case m < 2: // too few reports
 		mode = "no-quorum"
 		evs = tx.evs(perm[:1+r.Rng.Intn(2)])
@@ -1167,6 +1543,19 @@ func (e *c07Env) driveMessage(ctx sdk.Context, id uint64, kind string, caseKey *
 		if r.Rng.Intn(2) == 0 {
 			evs = append(tx.evs(perm[3:]), evs...)
 		}
+	case m >= 24 && tx.class == "blob":
+		// SAME transaction, same receipt, but the validators serialized the transaction differently
+		// (canonical form vs network form, or different sidecars): the proofs are different byte strings
+		other := (tx.enc + 1 + r.Rng.Intn(c07Sidecars)) % (c07Sidecars + 1)
+		split := [][2]int{{1, 3}, {3, 1}, {2, 2}, {2, 1}}[r.Rng.Intn(4)]
+		mode = fmt.Sprintf("split-encoding-%d:%d", split[0], split[1])
+		evs = tx.evs(perm[:split[0]+split[1]])
+		for i := split[0]; i < len(evs); i++ {
+			evs[i].enc = other
+		}
+		if r.Rng.Intn(2) == 0 {
+			r.Rng.Shuffle(len(evs), func(i, j int) { evs[i], evs[j] = evs[j], evs[i] })
+		}
 	default:
 		mode = "unanimous"
 		evs = tx.evs(perm[:3+r.Rng.Intn(2)])
@@ -1201,8 +1590,13 @@ func (e *c07Env) driveMessage(ctx sdk.Context, id uint64, kind string, caseKey *
 	}
 
 	// 6. follow-ups
-	if txWon && r.Rng.Intn(3) == 0 && (kind == "uv" || kind == "slc") {
+	resubmit := r.Rng.Intn(2) == 0
+	if f != nil {
+		resubmit = f.resubmit
+	}
+	if txWon && resubmit && (kind == "uv" || kind == "slc") {
 		// re-submission: a second message with the same content, evidence = the SAME transaction
+		// (same hash), serialized the same way or - where the transaction has several - another way
 		var id2 uint64
 		var err error
 		if kind == "uv" {
@@ -1242,9 +1636,17 @@ func (e *c07Env) driveMessage(ctx sdk.Context, id uint64, kind string, caseKey *
 		}
 		e.register(ctx, id2)
 		// what the quorum reported for the first message, now for the second one
+		enc2 := grp.enc
+		if tx.class == "blob" {
+			enc2 = []int{grp.enc, grp.enc, 0, 1 + r.Rng.Intn(c07Sidecars)}[r.Rng.Intn(4)]
+			if f != nil {
+				enc2 = f.resubEnc
+			}
+		}
+		r.Stat(fmt.Sprintf("resubmit-enc:%s:%d->%d", tx.class, grp.enc, enc2))
 		evs2 := tx.evs(c07Perm(r, 3))
 		for i := range evs2 {
-			evs2[i].status, evs2[i].log, evs2[i].variant = grp.status, grp.log, grp.variant
+			evs2[i].status, evs2[i].log, evs2[i].variant, evs2[i].enc = grp.status, grp.log, grp.variant, enc2
 		}
 		if err := e.addEvidence(ctx, id2, evs2); err != nil {
 			return err
@@ -1266,7 +1668,11 @@ func (e *c07Env) driveMessage(ctx sdk.Context, id uint64, kind string, caseKey *
 			if st := e.load(ctx, x); st != nil && st.msg.GetCompassHandover() != nil {
 				r.Stat("kind:ch")
 				key := ""
-				if err := e.driveMessage(ctx, x, "ch", &key); err != nil {
+				var fch *c07Force
+				if f != nil {
+					fch = &c07Force{}
+				}
+				if err := e.driveMessage(ctx, x, "ch", &key, fch); err != nil {
 					return fmt.Errorf("handover: %w", err)
 				}
 				*caseKey += "|" + key
